@@ -72,6 +72,7 @@ def _wf_refs(eng, st, v, ty, depth=0):
         return
     if isinstance(v, SRef):
         st.assume(z3.And(v.t >= 0, v.t < st.heap.next_ref))
+        eng.models.assume_kind(st, v)
         if ty.kind in ("dict", "set", "list"):
             eng.typed_container(st, v, deep=True)  # well-typedness of a container PARAMETER's elements (annotation of the real function)
         if ty.kind == "class":
